@@ -99,6 +99,23 @@ def run_case(tree, st):
                      trees.snap_diff(before, trees.snapshot(diffx)), tree)
         return
 
+    # the same tree put together while being looked at (serialised,
+    # printed, compared, walked) after every step
+    try:
+        data2 = trees.build(tree, probe=True).to_bytes()
+        raised2 = None
+    except Exception as e:
+        data2 = None
+        raised2 = e
+
+    if data2 != data or (raised is None) != (raised2 is None):
+        st.violation('bytes-depend-on-looking-at-the-tree-while-building',
+                     'plain build: %r / %r; build with to_bytes(), repr(), '
+                     '== and subsections after every step: %r / %r'
+                     % (raised, (data or b'')[:120], raised2,
+                        (data2 or b'')[:120]), tree)
+        return
+
     if not ok:
         if raised is None:
             st.violation('unserialisable-tree-accepted',
